@@ -2466,12 +2466,23 @@ func newRepo(uuid dvid.UUID, v dvid.VersionID, id dvid.RepoID, passcode string) 
 	return repo
 }
 
+// branchHeads returns the head of each branch as newVersion() caches it while the server
+// runs: the node last added to the branch as a new version (or the root).  A head is not
+// necessarily a leaf, since it can have children on other branches or merge children, and
+// a merge child does not move the head of its parents' branch.
 func (r *repoT) branchHeads() map[string]dvid.UUID {
-	branchToUUID := make(map[string]dvid.UUID)
+	heads := make(map[string]*nodeT)
 	for _, node := range r.dag.nodes {
-		if len(node.children) == 0 {
-			branchToUUID[node.branch] = node.uuid
+		if len(node.parents) > 1 {
+			continue
 		}
+		if head, found := heads[node.branch]; !found || node.version > head.version {
+			heads[node.branch] = node
+		}
+	}
+	branchToUUID := make(map[string]dvid.UUID, len(heads))
+	for branch, node := range heads {
+		branchToUUID[branch] = node.uuid
 	}
 	return branchToUUID
 }
